@@ -14,6 +14,8 @@ CONSTANTS InitMode,     \* "empty" | "rich-ready" | "rich-any"
 VARIABLES hist, ev0
 gvars == <<vars, hist, ev0>>
 H(x) == hist' = Append(hist, x) /\ ev0' = ev0
+RECURSIVE SortSlots(_)
+SortSlots(S) == IF S = {} THEN <<>> ELSE LET m == CHOOSE x \in S : \A y \in S : x <= y IN <<m>> \o SortSlots(S \ {m})
 OpRec(in, op) == [t |-> "op", in |-> in, k |-> op.k, e |-> op.e, fd |-> op.fd]
 
 \* a complete configuration: event e is initialised on cfg[e].fd (0 = not) and enabled iff cfg[e].en
@@ -25,10 +27,10 @@ RichInit ==
   /\ map = [fd \in FD |-> IF \E e \in E : ev[e].fd = fd THEN fd ELSE 0]
   /\ recs = [r \in RID |-> IF map[r] = 0 THEN DeadRec
                            ELSE [live |-> TRUE, fd |-> r, ref |-> Cardinality({e \in E : ev[e].fd = r}),
-                                 subs |-> {e \in E : ev[e].fd = r /\ ev[e].en}]]
+                                 subs |-> SortSlots({e \in E : ev[e].fd = r /\ ev[e].en})]]   \* the driver enables in slot order
   /\ pool = <<>>
   /\ (IF InitMode = "rich-any" THEN ready \in [FD -> SUBSET Conds] ELSE ready = [fd \in FD |-> Conds]) /\ closed = [fd \in FD |-> FALSE]
-  /\ phase = "idle" /\ rlist = {} /\ cur = NoCur /\ copy = {} /\ run = 0 /\ opsLeft = 0 /\ passes = 0
+  /\ phase = "idle" /\ rlist = {} /\ cur = NoCur /\ copy = <<>> /\ run = 0 /\ opsLeft = 0 /\ passes = 0
   /\ pins = {} /\ pollReady = [fd \in FD |-> {}] /\ cbEn = FALSE /\ viol = {}
 GInit == (IF InitMode = "empty" THEN Init ELSE RichInit) /\ hist = <<>> /\ ev0 = [ev |-> ev, ready |-> ready]
 
